@@ -403,8 +403,10 @@ class C05Checker(Checker):
         false_heads = sum(1 for e in heads if not e.verdict)
         if false_heads != final_m:
             self.fail("metaepoch-count-vs-steps", f"{false_heads} whole metaepochs were started but metaepoch_count={final_m}")
-        if not heads or not heads[-1].verdict or tl[-1] is not heads[-1]:
-            self.fail("no-final-head-check", "run() did not return from a loop-head consultation that was true")
+        # run() returns at a boundary at which the condition was seen true: the last consultation is a true one made by the
+        # tree itself between metaepochs (at the loop head, or right after the metaepoch - a loop may reuse that verdict)
+        if not tl or not tl[-1].verdict or tl[-1].asker not in ("head", "post"):
+            self.fail("no-final-boundary-check", "run() did not return from a consultation between metaepochs that was true")
         g = self.sc["gsc"]
         cap = int(self.sc["cap"])
         if g["kind"] == "MetaepochLimit":
@@ -866,41 +868,54 @@ class C11Checker(Checker):
         tree, tr = run.tree, run.trace
         if tree is None:
             return
-        asks: dict[str, list] = {}
-        for e in tr.timeline:
-            if e.asker == "deme":
-                asks.setdefault(e.asker_id, []).append(e.n_calls)
         calls_by: dict[str, list] = {}
         for c in tr.calls:
             calls_by.setdefault(c.deme, []).append(c)
+        import bisect
+
         for lvl, demes in enumerate(tree.levels):
             eng = self.sc["levels"][lvl]["engine"]
             if eng not in POP_ENGINES and eng != "CMA":
                 continue
             for d in demes:
                 gens = _flat_generations(d)
-                a = asks.get(d.id, [])
-                if len(a) < len(gens) - 1:
-                    # the engine did not consult the GSC after every generation: segments unknown (C05 reports that)
-                    continue
-                mine = calls_by.get(d.id, [])
+                # this deme's evaluations, by (genome, value) -> increasing call numbers
+                when: dict[tuple, list] = {}
+                for c in calls_by.get(d.id, []):
+                    when.setdefault((c.x.tobytes(), c.value), []).append(c.seq)
+
+                def first_after(key, t):
+                    seqs = when.get(key)
+                    if not seqs:
+                        return None
+                    i = bisect.bisect_right(seqs, t)
+                    return seqs[i] if i < len(seqs) else None
+
+                # "completed" is located in the deme's own call log, not by its stop-condition consultations (how often
+                # and when an engine consults is not part of C11): done[j] = the latest of the earliest evaluations that
+                # can account for generation j's new individuals - never later than the true completion.
+                done = -1
+                for ind in gens[0][2] if gens else []:
+                    t = first_after((np.asarray(ind.genome, dtype=float).tobytes(), float(ind.fitness)), -1)
+                    if t is not None:
+                        done = max(done, t)
                 for j in range(1, len(gens)):
                     m0, g0, prev = gens[j - 1]
                     m1, g1, cur = gens[j]
-                    lo = a[j - 2] if j >= 2 else 0
-                    hi = a[j - 1]
-                    seg = {(c.x.tobytes(), c.value) for c in mine if lo <= c.seq < hi}
                     prevset = {(np.asarray(i.genome, dtype=float).tobytes(), float(i.fitness)) for i in prev}
                     if m0 == m1 and g1 >= 1:
                         startset = {(np.asarray(i.genome, dtype=float).tobytes(), float(i.fitness)) for i in d._history[m1 - 1][-1]} if m1 >= 1 else set()
                         if prevset != startset:
                             self.multi_gen_changed += 1
+                    new_done = done
                     for ind in cur:
                         key = (np.asarray(ind.genome, dtype=float).tobytes(), float(ind.fitness))
                         if key in prevset:
                             self.carried += 1
                             continue
-                        if key in seg:
+                        t = first_after(key, done)
+                        if t is not None:
+                            new_done = max(new_done, t)
                             continue
                         if math.isinf(key[1]) and cutoff_exhausted(run, lvl):
                             continue  # refused evaluation (sentinel): never reaches the objective
@@ -910,6 +925,7 @@ class C11Checker(Checker):
                             f"deme {d.id} ({eng}) history[{m1}][{g1}]: individual {fmt(ind.genome)} (fitness {ind.fitness!r}) neither belongs to the preceding generation history[{m0}][{g0}] nor was evaluated after it ({where})",
                         )
                         break
+                    done = new_done
         # engine proxy (SEA family): parents of the k-th run are the offspring of the (k-1)-th
         last: dict[str, list] = {}
         for e in tr.engine_log:
@@ -1172,9 +1188,10 @@ import re as _re
 
 from .digest import tree_digest
 
+# (the fields a report line carries, whatever the blanks between them)
 _DEME_LINE = _re.compile(
-    r"^(?P<prefix>.*?)(?P<type>\w+Deme) (?P<id>root|[0-9/]+)(?P<star> \*\*\* | )f\((?P<x>[^)]*)\) ~= (?P<fit>\S+)"
-    r"(?: sprout: \((?P<seed>[^)]*)\);)? evals: (?P<evals>\d+) (?P<new>\(new_deme\))?$"
+    r"^(?P<prefix>.*?)(?P<type>\w+Deme)\s+(?P<id>root|[0-9/]+)(?P<star>\s+\*\*\*\s+|\s+)f\((?P<x>[^)]*)\)\s*~=\s*(?P<fit>\S+)"
+    r"(?:\s+sprout:\s*\((?P<seed>[^)]*)\);?)?\s+evals:\s*(?P<evals>\d+)\s*(?P<new>\(new_deme\))?\s*$"
 )
 
 
@@ -1542,6 +1559,8 @@ class C10Checker(Checker):
             self.fail(f"filter/{name}/adds-candidates", f"metaepoch {tree.metaepoch_count}: {msg}")
             return
         r = None
+        if name in ("FarEnough", "NBC_FarEnough", "MahalanobisFarEnough") and any(len(e["after"].get(d, [])) < len(v) for d, v in e["before"].items()):
+            self.had_to_choose[name + "/removed-something"] = self.had_to_choose.get(name + "/removed-something", 0) + 1
         if name == "DemeLimit":
             if any(len(v) > f.limit for v in e["before"].values()):
                 self.had_to_choose[f"DemeLimit/{mx}"] = self.had_to_choose.get(f"DemeLimit/{mx}", 0) + 1
